@@ -22,6 +22,8 @@ DEPS = os.path.join(ROOT, ".deps")
 WHEELS = "/opt/veriftools/wheels"
 PY = os.environ.get("VERIF_PYTHON", "/venv/bin/python")
 REPO = os.environ.get("VERIF_REPO", "/repo")
+# runs against a scratch copy (tools/run_seeds.sh, matrix.py, mutant.sh) keep their evidence / replay files out of /verif
+OUT_ROOT = os.environ.get("VERIF_OUT") or None
 GUARD = "FATAL1TY_MASHUMARO_VERIF"
 
 
@@ -284,7 +286,7 @@ def finish(mod, check_id, tier, seed, results, inconclusive, wall):
         inconclusive.append(f"{agg_counts['harness_error']} harness errors: "
                             + json.dumps(extra.get("harness_errors", [])[:2])[:1500])
     # replay files
-    replay_dir = os.path.join(ROOT, "replay")
+    replay_dir = os.path.join(OUT_ROOT or ROOT, "replay")
     os.makedirs(replay_dir, exist_ok=True)
     lines = []
     seen_sig = set()
@@ -321,8 +323,8 @@ def finish(mod, check_id, tier, seed, results, inconclusive, wall):
         "coverage": coverage, "assumptions": list(getattr(mod, "ASSUMPTIONS", [])),
         "wall_s": round(wall, 2), "violations": len(new_viol),
     }
-    os.makedirs(os.path.join(ROOT, "evidence"), exist_ok=True)
-    with open(os.path.join(ROOT, "evidence", f"{check_id}.json"), "w") as f:
+    os.makedirs(os.path.join(OUT_ROOT or ROOT, "evidence"), exist_ok=True)
+    with open(os.path.join(OUT_ROOT or ROOT, "evidence", f"{check_id}.json"), "w") as f:
         json.dump(ev, f, indent=1, sort_keys=True, default=str)
     for ln in lines:
         print(ln)
